@@ -109,7 +109,8 @@ def run(rep: Report, only_params: bool = False, only_variant=None) -> None:
             for compact in (0, 2):
                 combos.append((st, compact, False, True, False, "long"))
     if only_variant:
-        combos = [c for c in combos if c[5] == only_variant]
+        ov = (only_variant,) if isinstance(only_variant, str) else tuple(only_variant)
+        combos = [c for c in combos if c[5] in ov and (c[5] == "long" or (not c[2] and not c[4]))]
     n = 0
     for st, compact, params, clamp, same, variant in combos:
         n += 1
